@@ -65,6 +65,15 @@ func c20Schema(p *prng.R) (*tspace.Schema, string) {
 		}
 		for _, c := range t.Cols {
 			c.Name = cmap[c.Name]
+			if c.Val != nil {
+				// bounded maps, down to "at most one pair" (still a map, never a pointer)
+				switch p.Intn(6) {
+				case 0, 1:
+					c.Min, c.Max = 0, 1
+				case 2:
+					c.Min, c.Max = 0, 2+p.Intn(3)
+				}
+			}
 			for _, b := range []*tspace.Base{&c.Key, c.Val} {
 				if b == nil {
 					continue
